@@ -557,7 +557,7 @@ pub fn run(ctx: &mut Ctx) {
     });
 
     // ------------------------------------------------ random walks in lock-step with the model
-    let walks = ctx.tier.pick(20_000, 200_000);
+    let walks = ctx.tier.pick(80000, 800000);
     ctx.family("walk", walks, |ctx, case: &mut Case| {
         let rng = &mut case.rng;
         let mut st = S::None;
